@@ -882,6 +882,16 @@ class _ConstFold(ast.NodeTransformer):
             return n.body if n.test.value else n.orelse
         return n
 
+    def visit_BinOp(self, n):
+        self.generic_visit(n)
+        if isinstance(n.op, ast.Add) and isinstance(
+                n.left, ast.Constant) and isinstance(
+                n.right, ast.Constant) and isinstance(
+                n.left.value, str) and isinstance(n.right.value, str):
+            return ast.copy_location(
+                ast.Constant(n.left.value + n.right.value), n)
+        return n
+
     def visit_UnaryOp(self, n):
         self.generic_visit(n)
         if isinstance(n.op, ast.Not) and isinstance(n.operand, ast.Constant) \
@@ -950,6 +960,28 @@ class _ConstFold(ast.NodeTransformer):
 
     def visit_Subscript(self, n):
         self.generic_visit(n)
+        if isinstance(n.value, (ast.Tuple, ast.List)) and isinstance(
+                n.slice, ast.Slice) and isinstance(n.ctx, ast.Load) and all(
+                    is_pure(x) and not isinstance(x, ast.Starred)
+                    for x in n.value.elts):
+            def c(x):
+                if x is None:
+                    return None
+                if isinstance(x, ast.Constant) and isinstance(x.value, int):
+                    return x.value
+                if isinstance(x, ast.UnaryOp) and isinstance(
+                        x.op, ast.USub) and isinstance(
+                        x.operand, ast.Constant) and isinstance(
+                        x.operand.value, int):
+                    return -x.operand.value
+                raise ValueError
+            try:
+                sl = slice(c(n.slice.lower), c(n.slice.upper),
+                           c(n.slice.step))
+                return ast.copy_location(
+                    type(n.value)(list(n.value.elts)[sl], ast.Load()), n)
+            except ValueError:
+                pass
         # ('a', 'b')[0] of a literal
         if isinstance(n.value, (ast.Tuple, ast.List)) and isinstance(
                 n.slice, ast.Constant) and isinstance(n.slice.value, int) \
@@ -1391,6 +1423,18 @@ def forward_substitute(fn):
                         isinstance(x.ctx, ast.Load)):
                     continue
                 p_ = parent.get(id(x))
+                if isinstance(p_, (ast.Tuple, ast.List)) and isinstance(
+                        p_.ctx, ast.Load):
+                    # an element of a display handed to a pure function that
+                    # builds something new from it (np.concatenate((a, b)))
+                    gp = parent.get(id(p_))
+                    if isinstance(gp, ast.Call) and _pure_call(gp) and \
+                            _call_name(gp)[1] in (
+                                'concatenate', 'stack', 'hstack', 'vstack',
+                                'column_stack', 'array', 'sum', 'max', 'min',
+                                'meshgrid', 'dot', 'cross'):
+                        continue
+                    return False
                 if isinstance(p_, (ast.BinOp, ast.UnaryOp, ast.Compare,
                                    ast.BoolOp, ast.FormattedValue)):
                     continue
